@@ -74,7 +74,14 @@ where
         self.sec_param
     }
 
-    fn compute_dimensions(&self, _n: usize) -> (usize, usize) {
+    fn compute_dimensions(&self, n: usize) -> (usize, usize) {
+        // These parameters were generated for one polynomial size: a larger
+        // polynomial would be silently truncated to the matrix, a smaller one padded.
+        assert_eq!(
+            ceil_div(n, self.n),
+            self.m,
+            "the polynomial size does not match the one the parameters were set up for"
+        );
         (self.n, self.m)
     }
 
